@@ -1126,6 +1126,9 @@ func (t *fnTrans) fieldAddr(in *ssa.FieldAddr) {
 			enc = pl.enc
 		}
 	}
+	if enc == nil {
+		enc = t.pointeeLoc(in.X)
+	}
 	defer func() {
 		if l := t.locs[in]; l != nil && enc != nil {
 			l.enc = enc
@@ -1147,6 +1150,36 @@ func (t *fnTrans) fieldAddr(in *ssa.FieldAddr) {
 	}
 	hv, ft, fname := t.fieldHV(owner, in.Field)
 	t.locs[in] = &loc{kind: locField, base: base, hv: hv, typ: ft, owner: t.g.typeKey(owner), fname: fname, baseVal: in.X, ownerT: owner}
+}
+
+// pointeeLoc: v is the value loaded from a pointer field declared `pointee_guarded_by`; the result
+// stands for "what that field points to" in guard obligations (named Type.*field).
+func (t *fnTrans) pointeeLoc(v ssa.Value) *loc {
+	u, ok := v.(*ssa.UnOp)
+	if !ok || u.Op != token.MUL {
+		return nil
+	}
+	fa, ok := u.X.(*ssa.FieldAddr)
+	if !ok {
+		return nil
+	}
+	pt, ok := fa.X.Type().Underlying().(*types.Pointer)
+	if !ok {
+		return nil
+	}
+	st, ok := pt.Elem().Underlying().(*types.Struct)
+	if !ok {
+		return nil
+	}
+	sa := t.g.ann.structs[t.g.typeKey(pt.Elem())]
+	if sa == nil {
+		return nil
+	}
+	name := "*" + st.Field(fa.Field).Name()
+	if sa.fields[name] == nil {
+		return nil
+	}
+	return &loc{kind: locCell, base: t.val(fa.X), typ: u.Type(), baseVal: fa.X, owner: t.g.typeKey(pt.Elem()), fname: name, ownerT: pt.Elem()}
 }
 
 // nilCheck emits safe.nil unless policy says the pointer is trusted non-nil.
